@@ -24,8 +24,9 @@ structure Member where
 /-- `hdr` is a gzip header that `readHeader` reads completely whatever follows it, whose Extra field
 makes `expectedMemberSize` announce `size`; and every proper prefix of it is a short read (the empty
 one the clean `io.EOF`, every other `io.ErrUnexpectedEOF`).  `canonHeader_ok` (the 18-byte header
-bgzf.Writer writes by default) and `writerHeader_ok` (with user Extra, Name and Comment, as
-bgzf.Writer lays them out) are the instances. -/
+bgzf.Writer writes by default) and `hdr18_ok` (the same with any FLG that keeps FEXTRA and adds only
+FTEXT/reserved bits, and any BSIZE) are the proved instances; for a header with user Extra, Name or
+Comment it is a hypothesis (such headers are covered by the enumeration, stream "named-header"). -/
 structure HeaderOk (crc : Bytes → Nat) (hdr : Bytes) (size : Nat) : Prop where
   reads : ∀ t, ∃ h, readHeader crc (hdr ++ t) = .ok (h, hdr.length) ∧ expectedMemberSize h.extra = some size
   cut : ∀ k, k < hdr.length → readHeader crc (hdr.take k) = .error (if k = 0 then .eof else .unexpectedEOF)
